@@ -493,7 +493,24 @@ func genCase(t *rapid.T, fonts []*fontEntry, cum []int) (*fontEntry, *Case) {
 	if fe.rich.complexScript || fe.rich.rich() || len(fe.upstream) > 0 {
 		joinerShare = 5
 	}
-	if rapid.IntRange(0, 9).Draw(t, "textMode") < joinerShare {
+	// low-frequency stratum: long homogeneous texts of one syllabic script or of pieces of the
+	// upstream test texts of the font (syll_test.go): sizes beyond the shapers' internal counters
+	long := false
+	var syll *syllScript
+	if (len(fe.syll) > 0 || len(fe.units) > 0) && rapid.IntRange(0, 19).Draw(t, "syllableText") == 0 {
+		long = true
+		var units [][]rune
+		if len(fe.units) > 0 && (len(fe.syll) == 0 || rapid.Bool().Draw(t, "upstreamUnits")) {
+			units = fe.units
+		}
+		if len(fe.syll) > 0 {
+			syll = rapid.SampledFrom(fe.syll).Draw(t, "syllableScript")
+		}
+		text, _ = genSyllableText(t, syll, units, ev.Scale(1, 2))
+		if units != nil {
+			syll = nil
+		}
+	} else if rapid.IntRange(0, 9).Draw(t, "textMode") < joinerShare {
 		text = genJoinerText(t, fe, opts.MaxLen)
 	} else {
 		text = textgen.Text(t, opts)
@@ -503,15 +520,19 @@ func genCase(t *rapid.T, fonts []*fontEntry, cum []int) (*fontEntry, *Case) {
 		c.Text[i] = int(r)
 	}
 	c.Offset, c.Length = 0, len(text)
-	if len(text) > 1 && rapid.IntRange(0, 3).Draw(t, "subrun") == 0 {
+	if len(text) > 1 && !long && rapid.IntRange(0, 3).Draw(t, "subrun") == 0 {
 		c.Offset = rapid.IntRange(0, len(text)-1).Draw(t, "itemOffset")
 		c.Length = rapid.IntRange(0, len(text)-c.Offset).Draw(t, "itemLength")
 	}
 	c.Dir = rapid.SampledFrom([]int{0, 0, 0, 0, 4, 4, 5, 5, 6, 7}).Draw(t, "direction")
-	switch rapid.IntRange(0, 9).Draw(t, "scriptMode") {
-	case 0, 1, 2, 3, 4:
+	switch sm := rapid.IntRange(0, 9).Draw(t, "scriptMode"); {
+	case syll != nil && sm < 8:
+		if sm < 4 {
+			c.Script = syll.tag
+		}
+	case sm <= 4:
 		// guessed
-	case 5, 6, 7:
+	case sm >= 5 && sm <= 7:
 		if len(fe.scripts) > 0 {
 			c.Script = alphabetScript[rapid.SampledFrom(fe.scripts).Draw(t, "ownScript")][0]
 		} else {
